@@ -14,6 +14,7 @@ import (
 	"runtime/debug"
 	"strconv"
 	"strings"
+	"sync"
 	"time"
 )
 
@@ -336,3 +337,21 @@ func Tokens(s string) string {
 	}
 	return strings.Join(toks, " ")
 }
+
+// ---- C13: shared-memory discipline ----
+
+// Watch marks a memory cell whose accesses are logged (gse only).
+func Watch(p any) {}
+
+// Par runs f and g as two threads: under gse one after the other with their accesses tagged
+// by thread; natively as two goroutines (so that a -race build can confirm a finding).
+func Par(f, g func()) {
+	var wg sync.WaitGroup
+	wg.Add(2)
+	go func() { defer wg.Done(); f() }()
+	go func() { defer wg.Done(); g() }()
+	wg.Wait()
+}
+
+// RaceFree: no conflicting pair of accesses was logged (natively not observable: true).
+func RaceFree() bool { return true }
